@@ -69,7 +69,7 @@ def _mutant_files(names):
     out = []
     for p in sorted(glob.glob(os.path.join(core.VERIF_DIR, "mutants", "*.patch"))):
         base = os.path.basename(p)[:-6]
-        m = re.match(r"(C\d+)-(.*)$", base)
+        m = re.match(r"(C\d+(?:\+C\d+)*)-(.*)$", base)
         if m:
             out.append((base, m.group(1).split("+"), p))
     for d in sorted(glob.glob(os.path.join(core.VERIF_DIR, "seeded", "*"))):
